@@ -7,7 +7,7 @@ machinery therefore never sees a stale result.  VERIF_NO_CACHE=1 disables the st
 """
 import os
 import time
-from . import layer_t, layer_i, layer_r, layer_g, corpus
+from . import layer_t, layer_i, layer_r, layer_g, layer_s, corpus
 from .common import tree_hash, cache_get, cache_put, Scratch, REPRS, log
 
 
@@ -58,6 +58,13 @@ def quick_instance_corpus(seed):
     return out
 
 
+def known_finding_specs():
+    """declarations that exhibit a recorded known finding (known_findings.json)"""
+    from .corpus import EnumSpec, Variant
+    vs = [Variant("MAX", 0, "0"), Variant("B", 1, "1"), Variant("MIN", 2, "2")]
+    return [EnumSpec("k_f7_variant_named_min_max", "u8", vs, ["MIN", "MAX", "try_from", "into"], ident="En", tags={"known", "F7"})]
+
+
 def get_i(tier, seed):
     key = tree_hash(("I", tier, seed))
     r = cache_get("layer_i", key)
@@ -66,6 +73,7 @@ def get_i(tier, seed):
         return r
     t0 = time.time()
     specs = quick_instance_corpus(seed) if tier == "quick" else corpus.instance_corpus("thorough", seed)
+    specs = specs + known_finding_specs()
     with Scratch("vf-i-") as sc:
         r = layer_i.run_instances(sc, specs, seed, tier)
     r.pop("mods_info", None)
@@ -102,4 +110,38 @@ def get_g(tier="quick"):
     r["wall_s"] = time.time() - t0
     r["cache_hit"] = False
     cache_put("layer_g", key, r)
+    return r
+
+
+def get_s(tier, seed):
+    key = tree_hash(("S", tier, seed))
+    r = cache_get("layer_s", key)
+    if r is not None:
+        r["cache_hit"] = True
+        return r
+    t0 = time.time()
+    with Scratch("vf-s-") as sc:
+        r = layer_s.run_layer_s(sc, tier, seed)
+    r["wall_s"] = time.time() - t0
+    r["cache_hit"] = False
+    cache_put("layer_s", key, r)
+    return r
+
+
+def get_c11(tier, seed):
+    key = tree_hash(("C11", tier, seed))
+    r = cache_get("layer_c11", key)
+    if r is not None:
+        r["cache_hit"] = True
+        return r
+    t0 = time.time()
+    specs = corpus.c11_specs(tier, seed)
+    with Scratch("vf-c11-") as sc:
+        r = layer_i.run_instances(sc, specs, seed, tier, name="c11")
+    r.pop("mods_info", None)
+    r["specs"] = {s.mod: s.describe() for s in specs}
+    r["decls"] = {s.mod: s.render() for s in specs} if len(specs) < 400 else {s.mod: s.render() for s in specs if len(s.variants) < 500}
+    r["wall_s"] = time.time() - t0
+    r["cache_hit"] = False
+    cache_put("layer_c11", key, r)
     return r
